@@ -226,7 +226,10 @@ Proof. lia. Qed.
 Lemma ltb_nat a b : (Z.of_nat a <? Z.of_nat b) = (a <? b)%nat.
 Proof. destruct (Nat.ltb_spec a b); destruct (Z.ltb_spec (Z.of_nat a) (Z.of_nat b)); try reflexivity; lia. Qed.
 
-Ltac norm := rewrite ?Nat2Z.id, ?of_nat_S, ?Nat2Z.id, ?ltb_nat, ?code_bslash, ?code_colon, ?code_star, ?code_slash.
+Lemma leb_nat a b : (Z.of_nat a <=? Z.of_nat b) = (a <=? b)%nat.
+Proof. destruct (Nat.leb_spec a b); destruct (Z.leb_spec (Z.of_nat a) (Z.of_nat b)); try reflexivity; lia. Qed.
+(* every comparison of counters in one form: x < y on nat (a test written `i >= l` becomes negb (i < l)) *)
+Ltac norm := rewrite ?Nat2Z.id, ?of_nat_S, ?Nat2Z.id, ?ltb_nat, ?leb_nat, ?Nat.leb_antisym, ?code_bslash, ?code_colon, ?code_star, ?code_slash.
 Ltac step := rev_eval; norm.
 Ltac fin := unfold written; cbn [flat_map enc fst snd String.eqb Ascii.eqb Bool.eqb app]; rewrite ?char_code, ?app_nil_r; try reflexivity.
 
